@@ -633,6 +633,39 @@ var pins = []pin{
 	{"pkg/streamwriter", "encodeMessageInFrame"}, {"pkg/streamwriter", "Writer.Initialize"}, {"pkg/streamwriter", "Writer.Write"}, {"pkg/streamwriter", "Writer.writeInner"},
 	{"pkg/tlog", "Reader.Initialize"}, {"pkg/tlog", "Reader.Read"}, {"pkg/tlog", "Writer.Initialize"}, {"pkg/tlog", "Writer.Write"},
 	{"pkg/timednetconn", "New"}, {"pkg/timednetconn", "conn.Close"}, {"pkg/timednetconn", "conn.Read"}, {"pkg/timednetconn", "conn.Write"},
+	{"pkg/conversion", "defAddrToName"}, {"pkg/conversion", "dialectNameGoToDef"}, {"pkg/conversion", "dialectNameDefToGo"},
+	{"pkg/conversion", "parseDescription"}, {"pkg/conversion", "uintPow"}, {"pkg/conversion", "processDefinition"},
+	{"pkg/conversion", "getDefinition"}, {"pkg/conversion", "processMessage"}, {"pkg/conversion", "processField"},
+	{"pkg/conversion", "writeDialect"}, {"pkg/conversion", "writeEnum"}, {"pkg/conversion", "writeMessage"}, {"pkg/conversion", "Convert"},
+	{"pkg/conversion", "definitionMessage.UnmarshalXML"}, {"pkg/conversion", "definitionDecode"},
+}
+
+// package-level variables whose initialisers are part of a model (templates, regular expressions, tables)
+var varPins = []pin{
+	{"pkg/conversion", "tplDialect"}, {"pkg/conversion", "tplEnum"}, {"pkg/conversion", "tplMessage"},
+	{"pkg/conversion", "reMsgName"}, {"pkg/conversion", "reTypeIsArray"}, {"pkg/conversion", "dialectTypeToGo"},
+}
+
+func findVarInit(dir, name string) string {
+	p := loadPkg(dir)
+	for _, f := range p.files {
+		for _, d := range f.Decls {
+			gd, ok := d.(*ast.GenDecl)
+			if !ok || gd.Tok != token.VAR {
+				continue
+			}
+			for _, sp := range gd.Specs {
+				vs := sp.(*ast.ValueSpec)
+				for i, n := range vs.Names {
+					if n.Name == name && i < len(vs.Values) {
+						return strings.Join(strings.Fields(render(vs.Values[i])), " ")
+					}
+				}
+			}
+		}
+	}
+	die("variable %s not found in %s", name, dir)
+	return ""
 }
 
 // every function of the root package (the node) is pinned
@@ -683,7 +716,16 @@ func genSrc(printOnly bool) string {
 		h := sha256.Sum256([]byte(normSrc(fd)))
 		b.WriteString(fmt.Sprintf("def %s : String := \"%s\"\n", leanIdent(p.dir, p.fn), hex.EncodeToString(h[:8])))
 	}
-	// struct and package-level declarations of the node package (fields, channel types)
+	for _, p := range varPins {
+		h := sha256.Sum256([]byte(findVarInit(p.dir, p.fn)))
+		b.WriteString(fmt.Sprintf("def %s : String := \"%s\"\n", leanIdent(p.dir, "var_"+p.fn), hex.EncodeToString(h[:8])))
+	}
+	// bodies only (two functions with different names and the same body have the same hash)
+	for _, p := range []pin{{"pkg/conversion", "dialectNameGoToDef"}, {"pkg/message", "fieldGoToDef"}} {
+		fd := findFunc(p.dir, p.fn)
+		h := sha256.Sum256([]byte(strings.Join(strings.Fields(render(fd.Type)+render(fd.Body)), " ")))
+		b.WriteString(fmt.Sprintf("def %s : String := \"%s\"\n", leanIdent(p.dir, "body_"+p.fn), hex.EncodeToString(h[:8])))
+	}
 	b.WriteString("end Mav.Gen\n")
 	return b.String()
 }
